@@ -16,7 +16,8 @@ LEVEL = ("Classical static necessary conditions for deadlock freedom and complet
          "exactly one progress update and one record_sample under the trace guard, counts the draw only after a successful record and stops at "
          "num_tune + num_draws (R5). Absence of deadlock over all interleavings is not decided (that needs a protocol model, a different technique)."
          " Added: the response of a request is awaited with the blocking recv (R3)."
-         " Added (round 4): the per-draw progress update is applied to the shared counters behind their mutex (R5); inside its command loop the controller waits only in recv_timeout, response sends and locks (R9).")
+         " Added (round 4): the per-draw progress update is applied to the shared counters behind their mutex (R5); inside its command loop the controller waits only in recv_timeout, response sends and locks (R9)."
+         " Added (round 5): no draw without a test of the draw budget, the first one included (R10; decided F15); the result of forwarding Pause / Resume to a chain is never propagated or unwrapped in the controller (R11); a chain that found a starting point runs (R12 = C13-R3 analysis).")
 EXPLANATION = ("Guard-liveness dataflow on MIR (lock call -> guard local -> drop terminator), lock-class edges closed over the call graph, blocking-call "
                "table, dominance / per-path call counting on the request methods, the controller loop and the worker loop; positive-control crate for "
                "the zero-expected lock rules.")
